@@ -46,11 +46,8 @@ class ExecMixin(object):
         if z3.is_true(c):
             return True
         self.prune_calls += 1
-        s = z3.Solver()
-        s.set("timeout", 400)
-        s.add(*st.hyps())
-        s.add(c)
-        return s.check() != z3.unsat
+        from .solve import quick_check
+        return quick_check(st.hyps() + [c], 1000) != "unsat"
 
     def run_block(self, stmts, st):
         """-> list of (outcome, state, value)"""
